@@ -175,7 +175,7 @@ fn gen(t: &mut Tape, tier: Tier) -> Scenario {
         note = "random bytes".to_string();
     } else {
         let b = if long {
-            gen_long_symbol(t, 0)
+            gen_long(t, 0)
         } else {
             gen_lzma(t, 0, 2500)
         };
@@ -249,6 +249,11 @@ fn gen(t: &mut Tape, tier: Tier) -> Scenario {
     let cuts: Vec<usize> = cuts.into_iter().filter(|c| *c < input.len()).collect();
     let ops = draw_history(t, input.len(), &cuts, true);
     flags |= boundary_flags(&ops, hl_used, longest);
+    if longest.1 > longest.0 + 8 && longest.1 <= input.len() && t.below(3) == 0 {
+        // scan every cut position inside the longest symbol
+        sc.set_i("scan_from", longest.0 as u64);
+        sc.set_i("scan_to", longest.1 as u64);
+    }
     sc.note = format!("{}; history: {}", note, &ops_note(&ops)[..ops_note(&ops).len().min(200)]);
     sc.set_b("input", input);
     sc.set_l("ops", ops);
@@ -354,6 +359,20 @@ fn exec(sc: &Scenario, ctx: &mut Ctx) -> Vec<Violation> {
     ctx.stats.eval(h.get(), writes >= 2, o.events.len() as u64 + 1);
     if let Some(v) = v {
         return vec![v];
+    }
+    if sc.has_i("scan_to") {
+        ctx.stats.hit("arm.every_cut_inside_the_longest_symbol_scanned");
+        for c in (sc.i("scan_from") + 1)..sc.i("scan_to") {
+            let ops1 = [OP_WRITE_N, c, OP_WRITE_ALL, 0, OP_FINISH, 0];
+            let (v, o, _) = one_history(sc, &ops1, &oneshot);
+            ctx.stats.eval(sc.hash() ^ c << 24, true, o.events.len() as u64);
+            if c - sc.i("scan_from") >= 16 {
+                ctx.stats.hit("probe.cut_16_or_more_bytes_into_a_symbol");
+            }
+            if let Some(v) = v {
+                return vec![v];
+            }
+        }
     }
     // enumeration of every 1-cut and (bounded) 2-cut composition for short inputs
     if sc.i("enumerate_cuts") == 1 {
